@@ -1,6 +1,7 @@
 pub mod c01;
 pub mod c02;
 pub mod c03;
+pub mod c05;
 pub mod c06;
 pub mod c07;
 pub mod c08;
@@ -22,6 +23,7 @@ pub fn get(prop: &str) -> Option<Box<dyn Check>> {
         "C02" => Some(Box::new(c02::C02::new())),
         "C03" => Some(Box::new(c03::C03::new())),
         "C04" => Some(Box::new(c13::AsmCheck::new(c13::Which::C04))),
+        "C05" => Some(Box::new(c05::C05)),
         "C06" => Some(Box::new(c06::C06::new())),
         "C07" => Some(Box::new(c07::C07)),
         "C08" => Some(Box::new(c08::C08::new())),
